@@ -30,6 +30,7 @@ class ProcessWorker(Worker):
         self._comms = Pipe()
         self._ctrl_comms = Pipe()
         self._is_child = False
+        self._early_result = None # final message received by wait() while the child was still alive
         super().__init__(*args, **kwargs)
         assert not self.is_child
         self._comms.child_end.close()
@@ -73,6 +74,15 @@ class ProcessWorker(Worker):
             raise ValueError('A worker cannot wait for itself')
         if not self.is_alive():
             return True
+        if self._early_result is None:
+            # a result larger than the pipe buffer keeps the child blocked in send() until somebody
+            # reads it, so it has to be received here for the child to be able to exit
+            try:
+                ready = mp.connection.wait([self._comms.parent_end, self._child.sentinel], timeout)
+                if self._comms.parent_end in ready:
+                    self._early_result = self._comms.parent_end.get()
+            except Exception:
+                pass
         self._child.join(timeout)
         alive = self._child.is_alive()
         if not alive:
@@ -133,6 +143,9 @@ class ProcessWorker(Worker):
                     # the child reported something which cannot be rebuilt on this side
                     logger.exception('Could not receive the result of {}', self)
                     self._result = None
+
+            if self._result is None:
+                self._result = self._early_result
 
             if self._result is None:
                 self._result = (False, None)
